@@ -35,9 +35,9 @@ def check(run):
     for dev, depth in (('Q2', 4), ('Q3', 4 if thorough else 3)):
         st = run.explore(f'{dev}: sequences of 1..{depth} operations, all messages in one buffer', SPEC + ({'device': dev, 'depth': depth, 'one_buffer': True},), 900)
         records.extend(st['records'])
-    for chunk in (64, 1):
-        st = run.explore(f'Q2: sequences of 1..3 operations streamed through process::<64>, {chunk} bytes per read (responses of several messages per read)',
-                         SPEC + ({'device': 'Q2', 'depth': 3, 'process': chunk},), 900)
+    for pn, chunk, depth in ((64, 64, 3), (32, 32, 4), (32, 1, 3)):
+        st = run.explore(f'Q2: sequences of 1..{depth} operations streamed through process::<{pn}>, {chunk} bytes per read (the responses of several messages per read exceed the buffer unless each is sent at once)',
+                         SPEC + ({'device': 'Q2', 'depth': depth, 'process': chunk, 'pn': pn},), 900)
         records.extend(st['records'])
     overflowed = 0
     for r in records:
@@ -80,7 +80,7 @@ def confirm(run, v):
     ok_all = True
     for rel in (False, True):
         if v.get('process'):
-            o = run.native([{'entry': 'process', 'device': v['device'], 'input': v['input'], 'n': 64, 'chunks': [], 'tail': v['process'], 'script': script}], release=rel)[0]
+            o = run.native([{'entry': 'process', 'device': v['device'], 'input': v['input'], 'n': v.get('pn', 64), 'chunks': [], 'tail': v['process'], 'script': script}], release=rel)[0]
         else:
             o = run.native([{'entry': 'run', 'device': v['device'], 'input': v['input'], 'cap': None, 'script': script}], release=rel)[0]
         exp = reference_output(v['ops'], v['custom_numbers'], {'Q1': 1, 'Q2': 2, 'Q3': 3, 'Q4': 4, 'T3': 10}[v['device']])
